@@ -69,6 +69,33 @@ CHECKS["C20"] = dict(
     note="Training data has >= 2 distinct values strictly inside absolute_range; quantile strategy on non-negative data; KDE with explicit bandwidth.",
     ref="7/C20")
 
+CHECKS["C16"] = dict(
+    technique="property-based testing (Hypothesis) against a pure-Python Lempel-Ziv parse; metamorphic hashed-vs-unhashed relation under a computed injectivity condition",
+    text="Generated training and transform strings (empty, one character, repetitive, unicode), dictionary caps, column hashing and base "
+         "dictionaries; each row is compared with an independent parse of its own string through column_label_dictionary_ (fit_transform and "
+         "transform, unseen phrases), row totals with len(s) + base counts, transform(train) with fit_transform(train); with hashing the "
+         "width bound and, when the fitted hash is injective on every substring involved, equality with the relabelled unhashed row. Exploration.",
+    note="The reference reproduces the incremental parse the class documents; base_dictionary only without hashing.",
+    ref="7/C16")
+CHECKS["C09"] = dict(
+    technique="property-based testing (Hypothesis) with round-trip, differential (transform vs fit_transform, three return types, two fits) oracles + exhaustive enumeration of short strings",
+    text="Generated corpora over tiny alphabets and unicode, vocabulary caps that are reached, all return types; every encoding must decode "
+         "to its string, codes must be in range, tokens_ must be the concatenation of code_list_, the cap must hold, transform(train) must "
+         "equal fit_transform(train), and the tokens/matrix outputs must be views of the sequences output. Exhaustively: every string over "
+         "{a,b} up to length 10 (quick) / {a,b,c} up to 9 (thorough) through 20 fixed models. Exploration with one exhaustive sub-space.",
+    note="A corpus without a repeated adjacent pair cannot be learned from: recorded finding F11 (accidental ValueError), matched by the "
+         "reference-computed predicate 'unlearnable'.",
+    ref="7/C09")
+CHECKS["C06"] = dict(
+    technique="property-based testing (Hypothesis) against Counter-based exact counts compared through the fitted label dictionaries; model-merge differential (a+b vs fit on concatenation)",
+    text="Generated corpora / edge lists with duplicates, short documents, pruning, masking, fixed dictionaries, joint spaces and both "
+         "input layouts; every cell of fit_transform and of transform on a second input must equal an independent count (n-grams, "
+         "kernel-weighted skip-grams, summed edge values) and the shape must be the fitted one. The sum of two unigram models is compared "
+         "with a model fitted on the concatenated corpora (columns, training matrix, transform). Exploration.",
+    note="Reads the private _train_matrix of merged models (as the repository's test does). Skip-gram variable radii use the library's "
+         "radius formula on independently computed frequencies.",
+    ref="7/C06")
+
 PENDING_REASON = "check not built yet in this revision of /verif (planned, see DESIGN.md section 7)"
 
 
